@@ -305,8 +305,11 @@ def adversarial_hit(r):
   client's point of view that frame answered r."""
   st = r.conn.state or {}
   lat = r.conn.ep.latency
+  # a stalled client process reads what is in its socket buffer late
+  lp = (getattr(r.server.world, 'scn', None) or {}).get('loop') or {}
+  slack = 5 * lp.get('stall_max', 0.0) if lp.get('stall_prob') else 0.0
   for when, tag in st.get('adv_sent', ()):
-    if tag == r.tag and when >= r.at - 3 * lat - 3e-3:
+    if tag == r.tag and when >= r.at - 3 * lat - 3e-3 - slack:
       return True
   return False
 
